@@ -1825,7 +1825,7 @@ class Interp(object):
                 if a[0] == "seq" and a[2] is None:
                     return [(self.new_cell(("list", a[1]), p, node), p)]
                 if a[0] == "seq":
-                    return [(a, p)]
+                    return [(self.new_cell(("listof", a, ()), p, node), p)]  # a list *copy* of *args
             if n == "list" and len(args) == 1 and not kwargs:
                 return [(self.new_cell(("listof", args[0], ()), p, node), p)]
             if n == "list" and not args:
